@@ -376,6 +376,18 @@ async fn scatter_sql_over_table(
                 participants[i].node_id, participants[i].address
             ))
         })?;
+        // An Arrow IPC stream cut at a message boundary is still a valid,
+        // shorter stream (the reader accepts EOF without the end marker), so
+        // a truncated payload can decode cleanly with fewer rows. The worker
+        // reports its row count out of band; the two must agree.
+        let decoded_rows: usize = decoded.iter().map(|b| b.num_rows()).sum();
+        if decoded_rows != rows {
+            return Err(QueryError::Execution(format!(
+                "node {} ({}) reported {rows} rows for shard {i} of table `{table}` but its \
+                 payload decodes to {decoded_rows}: the fragment result is incomplete",
+                participants[i].node_id, participants[i].address
+            )));
+        }
         contributions.push(NodeContribution {
             node_id: participants[i].node_id,
             address: participants[i].address.clone(),
@@ -729,16 +741,31 @@ fn unify(batches: Vec<RecordBatch>) -> Result<Vec<RecordBatch>> {
 /// survive as a zero-row batch, or the merge stage cannot even register the
 /// partial table (Q20-shaped TopN over a selective filter hits this).
 pub fn decode_ipc(bytes: &[u8]) -> Result<Vec<RecordBatch>> {
-    let reader = arrow::ipc::reader::StreamReader::try_new(std::io::Cursor::new(bytes), None)?;
-    let schema = reader.schema();
-    let mut out = Vec::new();
-    for b in reader {
-        out.push(b?);
+    // The IPC reader trusts the flatbuffer metadata it is given: a corrupted
+    // length or offset can make it index out of bounds and PANIC instead of
+    // returning an error. A peer's payload is untrusted input — a bad one must
+    // fail this query, not unwind through the coordinator.
+    let decoded = std::panic::catch_unwind(std::panic::AssertUnwindSafe(
+        || -> Result<Vec<RecordBatch>> {
+            let reader =
+                arrow::ipc::reader::StreamReader::try_new(std::io::Cursor::new(bytes), None)?;
+            let schema = reader.schema();
+            let mut out = Vec::new();
+            for b in reader {
+                out.push(b?);
+            }
+            if out.is_empty() {
+                out.push(RecordBatch::new_empty(schema));
+            }
+            Ok(out)
+        },
+    ));
+    match decoded {
+        Ok(r) => r,
+        Err(_) => Err(QueryError::Execution(
+            "Arrow IPC payload is corrupt (the decoder panicked on its metadata)".into(),
+        )),
     }
-    if out.is_empty() {
-        out.push(RecordBatch::new_empty(schema));
-    }
-    Ok(out)
 }
 
 /// Encode batches as an Arrow IPC stream.
